@@ -54,6 +54,7 @@ def r21a(ctx, run):
     if len(sites) < 20:
         raise LookupError("hash iteration sites: %d" % len(sites))
     per_owner = {}
+    n_addr = [0]
     for fn, c, kind, ga in sites:
         owner = strip_generics(fn.parent or fn.path)
         i = per_owner.get(owner, 0)
@@ -66,7 +67,7 @@ def r21a(ctx, run):
         random_state = "RandomState" in ga
         intern_key = False
         # key type = first generic argument of the container
-        m = re.match(r"\[(?:&'\{erased\} (?:mut )?)?(?:std::collections::Hash(?:Map|Set)<)?(.*)", ga)
+        m = re.match(r"\[(?:&'\{erased\} (?:mut )?)?(?:std::collections::(?:hash::)?(?:map::|set::)?Hash(?:Map|Set)<)?(.*)", ga)
         first = (m.group(1) if m else ga).split(", ")[0]
         depth = 0
         key = ""
@@ -78,13 +79,14 @@ def r21a(ctx, run):
             if ch == "," and depth == 0:
                 break
             key += ch
-        if "internment::Intern<" in key:
+        if re.search(r"internment::(intern::)?Intern<", key):
             intern_key = True
         if not (random_state or intern_key):
             run.ok(c.site(), what + " — deterministic hasher, value-stable key `%s`" % key[:50])
             continue
         why = "RandomState is seeded per process" if random_state else "key `%s` is hashed by address" % key[:50]
         if not reachable:
+            n_addr[0] += 1
             run.exempt(c.site(), what, "not reachable from capy::main in the resolved call graph (%s)" % why)
             continue
         # consumer: is the iterator only fed to an order-insensitive sink?
@@ -98,9 +100,15 @@ def r21a(ctx, run):
         if users and users <= ORDER_INSENSITIVE | {"into_iter", "next", "by_ref"} and users & ORDER_INSENSITIVE:
             run.exempt(c.site(), what, "consumer is order-insensitive (%s)" % sorted(users))
             continue
+        n_addr[0] += 1
         run.finding(owner, "hash-order#%d" % i, c.file, c.ln,
                     what + ": iteration order varies from run to run (%s) and the site is reachable from main — anything derived from the order (diagnostic order, symbol "
                     "order, data layout) is not reproducible" % why)
+    # positive control: the address-keyed classification must be alive (hir::common::get_all_named_types walks the
+    # Intern-keyed TYPE_NAMES map; it is test-only today).  If no site at all is classified as address-keyed the key
+    # extraction no longer understands rustc's type printing and the rule would pass vacuously.
+    if n_addr[0] < 1:
+        raise LookupError("no hash iteration site was classified as address-keyed (positive control TYPE_NAMES walk not recognised)")
 
 
 AMBIENT = re.compile(r"^(std::time::(Instant|SystemTime)::now|std::process::id|std::thread::current|std::hash::RandomState::new|std::collections::hash_map::RandomState::new|"
